@@ -40,6 +40,10 @@ class FunctionResult:
 
 def verify_function(index, registry, qual, prune_ms=150) -> FunctionResult:
     res = FunctionResult(qual)
+    # "<rel>::<Cls.fn>#<variant>": the same function verified against the ALTERNATIVE contract registered under the key
+    # "<Cls.fn>#<variant>" (used to keep a clause that is expected to be refuted apart from the clauses that verify);
+    # call sites always use the plain contract.
+    qual, _, variant = qual.partition("#")
     try:
         module, cls, fnode = index.function(qual, registry)
     except KeyError as e:
@@ -48,6 +52,9 @@ def verify_function(index, registry, qual, prune_ms=150) -> FunctionResult:
     res.sha = index.sha(module, fnode)
     key = ("%s.%s" % (cls.name, fnode.name)) if cls else fnode.name
     contract = registry.lookup(cls.name if cls else None, fnode.name, module.rel)
+    if variant:
+        key = key + "#" + variant
+        contract = registry.contracts.get(key)
     if contract is None:
         res.errors.append("no contract for %s" % key)
         return res
@@ -147,6 +154,16 @@ def _run_path(m: Machine, ctx: Ctx, module, cls, fnode, contract, key, res, case
     if not is_init:
         for cl in invs:
             ctx.assume(m.spec_bool(cl, env))
+    # entry_ref_lists: list-of-object expressions whose ELEMENTS are objects that exist at entry.  This is the engine's own
+    # allocation convention (objects reachable in the entry heap are >= 0, objects created on the path are < 0 - the same
+    # fact is assumed for every single reference read from the heap, see Interp.read_field) in quantified form, needed
+    # when an invariant quantifies over such a list and the function also allocates.
+    for expr in getattr(contract, "entry_ref_lists", []):
+        lv = m.spec_val(expr, env)
+        if not (isinstance(lv, V) and isinstance(lv.ty, sym.TList) and isinstance(lv.ty.elem, TRef)):
+            raise Unsupported("entry_ref_lists: %s is not a list of objects" % expr)
+        k = z3.Int("erl_k_%d" % len(ctx.pc))
+        ctx.assume(z3.ForAll([k], z3.Implies(z3.And(k >= 0, k < sym.list_len(lv)), z3.Select(sym.list_arr(lv), k) >= 0)))
     # heap snapshot must include arrays created while evaluating the preconditions
     env.old_heap.arrays.update({k: v for k, v in m.heap.arrays.items() if k not in env.old_heap.arrays})
     ctx.model_vars = model_vars
@@ -178,11 +195,15 @@ def _run_path(m: Machine, ctx: Ctx, module, cls, fnode, contract, key, res, case
     except (PyBreak, PyContinue):
         raise Unsupported("break/continue outside loop")
 
+    if getattr(contract, "check_frame", False):
+        for msg in _frame_check(m, env, contract):
+            if msg not in res.errors:
+                res.errors.append(msg)
     # ---- vacuity guard: the path must still be satisfiable after all assumed callee postconditions / invariants
     chk = z3.Solver()
     chk.set("timeout", 250)
     chk.add(*ctx.pc)
-    if chk.check() == z3.unsat:
+    if chk.check() == z3.unsat and not _late_pruned(ctx):
         msg = "vacuity guard: path condition unsatisfiable at exit (contradictory assumed contracts/invariants) on path %s" % (tuple(ctx.decisions),)
         if msg not in res.errors:
             res.errors.append(msg)
@@ -215,6 +236,11 @@ def _run_path(m: Machine, ctx: Ctx, module, cls, fnode, contract, key, res, case
     if outcome[0] == "return":
         res.outcomes["return"] = res.outcomes.get("return", 0) + 1
         rv = outcome[1]
+        from .interp import EmptyLiteral
+
+        if isinstance(rv, EmptyLiteral):
+            # `return []` / `return {}`: the empty value of the declared return type
+            rv = m.materialize(rv, m.return_type(fnode, module, contract))
         if isinstance(rv, PyObj):
             raise Unsupported("function returns a python-level object")
         ret_ty = None
@@ -324,6 +350,66 @@ def _frame_obligations(m, ctx, contract, key, env, model_vars):
         excl = [r != b for b in bases.get(f, [])]
         goal = z3.ForAll([r], z3.Implies(z3.And(r >= 0, *excl), z3.Select(new, r) == z3.Select(old, r)))
         ctx.oblige("%s:frame.%s.%s" % (key, owner, f), "frame", goal, note="field %s.%s is written only on objects listed in modifies" % (owner, f), model_vars=model_vars)
+
+
+def _late_pruned(ctx):
+    """The exit path condition is unsatisfiable.  Benign iff the FIRST unsatisfiable prefix ends exactly at a branch
+    decision (the branch was infeasible, the 60-150 ms pruning query just did not show it in time: every obligation of
+    such a path is vacuous and the path is dropped).  If the prefix before that decision is already unsatisfiable, or
+    no decision prefix is, the contradiction comes from assumed contracts / invariants: vacuity error."""
+    def unsat(n):
+        s = z3.Solver()
+        s.set("timeout", 400)
+        s.add(*ctx.pc[:n])
+        return s.check() == z3.unsat
+
+    # unsatisfiability is monotone in the prefix length: binary search for the first decision whose prefix is unsat
+    pos = list(ctx.dec_pos)
+    if not pos or not unsat(pos[-1]):
+        return False  # contradiction only after the last decision: it comes from assumed clauses
+    lo, hi = 0, len(pos) - 1
+    while lo < hi:
+        mid = (lo + hi) // 2
+        if unsat(pos[mid]):
+            hi = mid
+        else:
+            lo = mid + 1
+    return not unsat(pos[lo] - 1)
+
+
+def _frame_check(m, env, contract):
+    """Opt-in (contract key check_frame=True) frame check, conservative and purely syntactic: a heap field whose array
+    at exit differs from the entry array must be named (last path component) by a `modifies` entry, unless every
+    difference is a Store at an object created on this path.  A violation makes the function undecided (error)."""
+    allowed = set()
+    for loc in contract.modifies:
+        allowed.add((loc[:-3] if loc.endswith("[*]") else loc).split(".")[-1])
+    new_refs = getattr(m, "new_refs", [])
+    out = []
+    for (owner, f), arr in m.heap.arrays.items():
+        if f in allowed:
+            continue
+        old = env.old_heap.arrays.get((owner, f))
+        cur = arr
+        ok = True
+        while True:
+            if old is not None and cur.eq(old):
+                break
+            if z3.is_store(cur):
+                idx = cur.arg(1)
+                if not any(idx.eq(r) for r in new_refs):
+                    ok = False
+                    break
+                cur = cur.arg(0)
+                continue
+            # a constant array: the entry array created lazily by a first read (fine), or a havocked one (not fine)
+            if old is None and z3.is_const(cur) and cur.decl().kind() == z3.Z3_OP_UNINTERPRETED and cur.decl().name().startswith(m.heap.tag + "_"):
+                break
+            ok = False
+            break
+        if not ok:
+            out.append("frame: field %s.%s is written but not listed in modifies of %s" % (owner, f, contract.key))
+    return out
 
 
 def _pre_bool(m, cond, env):
